@@ -544,3 +544,64 @@ Example real_model_waiter_of_free_key_runs :
   let s := exec cd_scripts [0;0;0; 1;1;1; 2;2; 3;3; 0;0;0; 3;3;3] in
   running GLC 1 s = 1 /\ running GLC 2 s = 1 /\ enabled s 2 = false.
 Proof. vm_compute. repeat split; reflexivity. Qed.
+
+(* (m) SingleFlight that RECYCLES the call object of an uncontended call without clearing it (seeded change
+   C07-8): a new call object starts with the (val, err) of the object created before it, and a panicking
+   function assigns nothing - so the waiters of a panicking leader read what an earlier, long finished call
+   (here: of another key) left in the object. *)
+Definition recycle_step (s : state) (t : nat) : option state :=
+  match nth_error (threads s) t with
+  | Some th =>
+    match cur_op th with
+    | Some o =>
+      let T := S (now s) in
+      let put th' := upd_nth (threads s) t th' in
+      match ogrp o, tpc th with
+      | GSF, PCalled =>
+        match calls s GSF (okey o) with
+        | Some _ => step s t
+        | None =>
+          let c := nextc s in
+          let old := match c with O => None | S c0 => cval (heap s c0) end in
+          Some (mkState T (set_calls (calls s) GSF (okey o) (Some c))
+                 (fupd (heap s) c (mkCall GSF (okey o) (t, topi th) (tinv th) old false None))
+                 (S c) (resources s) (ncreated s)
+                 (put (mkThread (PLead c) (tscript th) (topi th) (tinv th) (now s) (truns th) (tres th))))
+        end
+      | GSF, PInFn c =>
+        if panics o then
+          Some (mkState T (calls s) (heap s) (nextc s) (resources s) (ncreated s) (put (set_pc th (PFnDone c (fn_ret o)))))
+        else step s t
+      | _, _ => step s t
+      end
+    | None => None
+    end
+  | None => None
+  end.
+
+Definition rc_scripts : list (list op) := [[mkOp GSF 2 101 0; mkOp GSF 1 102 epanic]; [mkOp GSF 1 201 0]].
+(* thread 0 completes its call on key 2 alone, then leads key 1; thread 1 joins; the leader's function panics *)
+Definition rc_sched : list nat := [0;0;0;0;0;0; 0;0;0; 1;1; 0;0;0; 1].
+
+(* thread 1 (key 1) is handed 101: the value of the execution for key 2 that had returned (time rt) before
+   thread 1 even called *)
+Theorem recycled_call_object_hands_earlier_result_refuted :
+  exists scripts sched th r r0 th0,
+    let s := run recycle_step (init scripts) sched in
+    nth_error (threads s) 1 = Some th /\ In r (tres th) /\ rfresh r = false /\
+    (rval r, rerr r) = (101%Z, 0%Z) /\
+    forallb (fun sc => forallb (fun o => negb (Z.eqb (okey o) 1 && Z.eqb (oval o) 101)) sc) scripts = true /\
+    nth_error (threads s) 0 = Some th0 /\ In r0 (tres th0) /\ rval r0 = 101%Z /\ rret r0 < rinv r.
+Proof.
+  exists rc_scripts, rc_sched. eexists. eexists. eexists. eexists. vm_compute.
+  split; [reflexivity|]. split; [left; reflexivity|]. split; [reflexivity|]. split; [reflexivity|].
+  split; [reflexivity|]. split; [reflexivity|]. split; [left; reflexivity|]. split; [reflexivity|].
+  repeat constructor.
+Qed.
+
+(* the real model (and code) on the same schedule: the waiter gets the empty (nil, nil) of the overlapping
+   panicked execution (Pinned.panic_hands_nil_to_waiters_refuted), nothing of key 2 *)
+Example real_model_waiter_of_panicked_leader_gets_nil :
+  map (fun th => map (fun r => (rval r, rerr r, rfresh r)) (tres th)) (threads (exec rc_scripts rc_sched))
+  = [[(101%Z, 0%Z, true); (vnil, epanic, true)]; [(vnil, 0%Z, false)]].
+Proof. vm_compute. reflexivity. Qed.
